@@ -84,6 +84,60 @@ type session struct {
 	forceFlu bool               // flush the table writer after every write (partial-table images)
 	failClose string            // fam/f: the close of this table fails with ENOSPC on its final flush (one shot)
 	extraKind string            // what the next extra image shows (branch label)
+	lastPrint string            // fingerprint of the directory right after the last traced FS operation (main session only)
+	untraced  int               // directory changes that no I/O seam reported (each one got a crash image of its own)
+}
+
+// dirPrint is a fingerprint of a store directory (names, sizes, mtimes, inode numbers of the store's files and
+// of the files one level below). The harness takes it right after every traced FS operation and again when the
+// NEXT seam is entered: a difference means the code changed the directory through a path no seam covers (a
+// new os.Remove / os.Rename call, a new package-level seam the harness does not know). That state is a point
+// "between two file-system operations" like every other: it gets a crash image of its own (extra image, same
+// model prefix) and is judged by the same oracle.
+func dirPrint(root string) string {
+	var sb strings.Builder
+	var walk func(dir string, depth int)
+	walk = func(dir string, depth int) {
+		ents, err := os.ReadDir(dir)
+		if err != nil {
+			sb.WriteString("!" + filepath.Base(dir) + ";")
+			return
+		}
+		for _, e := range ents {
+			fi, err := e.Info()
+			if err != nil {
+				continue
+			}
+			var ino uint64
+			if st, ok := fi.Sys().(*syscall.Stat_t); ok {
+				ino = st.Ino
+			}
+			if e.IsDir() {
+				fmt.Fprintf(&sb, "%s/{", e.Name())
+				if depth < 1 {
+					walk(filepath.Join(dir, e.Name()), depth+1)
+				}
+				sb.WriteString("};")
+				continue
+			}
+			fmt.Fprintf(&sb, "%s:%d:%d:%d;", e.Name(), fi.Size(), fi.ModTime().UnixNano(), ino)
+		}
+	}
+	walk(root, 0)
+	return sb.String()
+}
+
+// pre is called when a seam is entered, BEFORE the file-system operation it stands for is performed.
+func (s *session) pre() {
+	if s == nil || s.muted || s.onOp == nil || s.lastPrint == "" {
+		return
+	}
+	if cur := dirPrint(s.root); cur != s.lastPrint {
+		s.untraced++
+		s.extraKind = "untraced-fs-change"
+		s.lastPrint = cur
+		s.onOp(true)
+	}
 }
 
 var (
@@ -132,6 +186,7 @@ func (s *session) record(o fsop, extra bool) {
 	}
 	if s.onOp != nil {
 		s.onOp(extra)
+		s.lastPrint = dirPrint(s.root)
 	}
 }
 
@@ -171,6 +226,7 @@ func (w *manifestWriter) Write(p []byte) (int, error) {
 }
 
 func (w *manifestWriter) Sync() error {
+	w.s.pre()
 	err := w.BufioWriter.Sync()
 	for _, r := range w.pending {
 		w.s.record(recOp(w.n, r), false)
@@ -212,6 +268,9 @@ func (w *tableWriter) Write(p []byte) (int, error) {
 		// the bytes stay in the (emulated) write buffer: the final flush is the one that fails
 		return len(p), nil
 	}
+	if w.s != nil && w.s.forceFlu {
+		w.s.pre()
+	}
 	n, err := w.BufioWriter.Write(p)
 	if w.s != nil && w.s.forceFlu && !w.s.muted {
 		_ = w.BufioWriter.Flush()
@@ -227,6 +286,7 @@ func (w *tableWriter) Close() error {
 		_ = w.BufioWriter.Close()
 		return syscall.ENOSPC
 	}
+	w.s.pre()
 	err := w.BufioWriter.Close()
 	if w.s != nil && !w.s.muted {
 		key := fmt.Sprintf("%d/%d", w.fam, w.f)
@@ -270,6 +330,7 @@ type lockWrap struct {
 }
 
 func (l *lockWrap) Unlock() error {
+	l.s.pre()
 	err := l.FileLock.Unlock()
 	l.s.record(fsop{kind: "lock-", tok: "lock-"}, false)
 	return err
@@ -312,6 +373,7 @@ func installSeams() (restore func()) {
 	r1 := version.VerifC01SetIO(
 		func(fileName string) (bufioutil.BufioWriter, error) {
 			s := findSession(fileName)
+			s.pre()
 			existed := exists(fileName)
 			w, err := bufioutil.NewBufioEntryWriter(fileName)
 			if err != nil || s == nil {
@@ -331,6 +393,7 @@ func installSeams() (restore func()) {
 		},
 		func(name string, data []byte, perm os.FileMode) error {
 			s := findSession(name)
+			s.pre()
 			if s != nil && s.onOp != nil && !s.muted {
 				// os.WriteFile = truncating open, write, close: the point after the open is a crash point
 				// (the file exists and is empty). Same model prefix: nobody reads CURRENT.tmp.
@@ -352,6 +415,7 @@ func installSeams() (restore func()) {
 			return err
 		},
 		func(oldPath, newPath string) error {
+			findSession(newPath).pre()
 			err := os.Rename(oldPath, newPath)
 			if s := findSession(newPath); s != nil {
 				tok := "currename"
@@ -363,6 +427,7 @@ func installSeams() (restore func()) {
 			return err
 		})
 	r2 := table.VerifC01SetNewWriter(func(fileName string) (bufioutil.BufioWriter, error) {
+		findSession(fileName).pre()
 		w, err := bufioutil.NewBufioStreamWriter(fileName)
 		s := findSession(fileName)
 		if err != nil || s == nil {
@@ -379,6 +444,7 @@ func installSeams() (restore func()) {
 	cur := kv.VerifC01CurrentSeams()
 	r3 := kv.VerifC01SetSeams(kv.VerifC01Seams{
 		Remove: func(name string) error {
+			findSession(name).pre()
 			err := cur.Remove(name)
 			if s := findSession(name); s != nil {
 				if n, ok := parseManifestNo(filepath.Base(name)); ok {
@@ -390,6 +456,7 @@ func installSeams() (restore func()) {
 			return err
 		},
 		RemoveDir: func(path string) error {
+			findSession(path).pre()
 			err := cur.RemoveDir(path)
 			if s := findSession(path); s != nil {
 				if fam, f, ok := parseTablePath(s.root, path); ok {
@@ -401,6 +468,7 @@ func installSeams() (restore func()) {
 			return err
 		},
 		MkDir: func(path string) error {
+			findSession(path).pre()
 			existed := exists(path)
 			err := cur.MkDir(path)
 			if s := findSession(path); s != nil && !existed {
@@ -414,6 +482,7 @@ func installSeams() (restore func()) {
 			return err
 		},
 		EncodeToml: func(fileName string, v interface{}) error {
+			findSession(fileName).pre()
 			err := cur.EncodeToml(fileName, v)
 			if s := findSession(fileName); s != nil {
 				s.record(fsop{kind: "opts", tok: optsTok(fileName)}, false)
@@ -421,6 +490,7 @@ func installSeams() (restore func()) {
 			return err
 		},
 		NewFileLock: func(fileName string) (lockers.FileLock, error) {
+			findSession(fileName).pre()
 			existed := exists(fileName)
 			l, err := cur.NewFileLock(fileName)
 			s := findSession(fileName)
@@ -1142,12 +1212,20 @@ func (h *hist) beginOp(name string) (before string) {
 	if name == "createfam" {
 		h.takeImage(false) // the cut before the first FS operation: the family must still be creatable
 	}
+	h.sess.lastPrint = dirPrint(h.root)
 	return h.lastObs
 }
 
 // finishOp emits the protocol line of the operation that just ran, checks its crash images and (maybe) dies.
 func (h *hist) finishOp(name, opLine, out, before string, dieAllowed bool) {
+	h.sess.pre() // a directory change after the operation's last traced FS operation
 	ops := append([]fsop(nil), h.sess.ops...)
+	if h.sess.untraced > 0 {
+		// the I/O seams no longer cover every file-system operation of the code: the model cannot know this trace
+		out += fmt.Sprintf(" untraced-fs-changes=%d", h.sess.untraced)
+		h.c.Branch("region:untraced-fs-change")
+		h.sess.untraced = 0
+	}
 	h.c.Op(opLine, out)
 	after := before
 	if h.store != nil && !h.failed {
